@@ -139,7 +139,7 @@ class SessionRun(ClientRun):
 
                 r = api_pb2.VoiceAssistantResponse()
                 r.ParseFromString(payload)
-                n += ":error" if r.error else ":port"
+                n += ":error" if r.error else f":port:{r.port - 12000}"
             wl.append(n)
         done = []
         for op in w.poll_ops():
@@ -363,11 +363,17 @@ class SessionRun(ClientRun):
 
             async def handle_start(conv_id, flags, settings, wake):
                 run.cb.append([0, "va_start", int(conv_id[1:]), [], run.msg_seq])
+                run.va_cnt = getattr(run, "va_cnt", 0) + 1
+                n = run.va_cnt  # serial number of this start: the port it returns identifies it
                 if mode == "port":
-                    return 12345
+                    return 12000 + n
                 if mode == "noport":
                     return None
-                await run.loop.create_future()
+                gate = run.loop.create_future()
+                if mode == "gated":
+                    run.va_gates = getattr(run, "va_gates", {})
+                    run.va_gates[n] = gate
+                return 12000 + n if await gate else None
 
             async def handle_stop(abort):
                 run.cb.append([0, "va_stop", 1 if abort else 0, [], run.msg_seq])
@@ -382,6 +388,17 @@ class SessionRun(ClientRun):
                 handle_start=handle_start, handle_stop=handle_stop, handle_audio=handle_audio if audio else None, handle_announcement_finished=handle_fin)
 
         self.inject("VaSubscribe", {"mode": mode, "audio": bool(audio)}, fn)
+
+    def ev_va_release(self, n: int, res: str):
+        """The application's handler of start number n (mode 'gated') returns now: a port or nothing."""
+
+        def fn():
+            gate = getattr(self, "va_gates", {}).get(n)
+            if gate is None or gate.done():
+                return False
+            gate.set_result(res == "port")
+
+        self.inject("VaRelease", {"n": n, "res": res}, fn)
 
     def ev_va_unsub(self):
         def fn():
@@ -577,9 +594,11 @@ def c17_random(rng: random.Random, n_events: int) -> list:
             sid = rng.choice((1, 2, 3))
             sch.append(("ev", "unsub", sid, "x"))
         elif r < 0.35:
-            sch.append(("ev", "va_sub", rng.choice(("port", "noport", "block")), rng.random() < 0.6))
+            sch.append(("ev", "va_sub", rng.choice(("port", "noport", "block", "gated", "gated")), rng.random() < 0.6))
         elif r < 0.42:
             sch.append(("ev", "va_unsub"))
+        elif r < 0.5:
+            sch.append(("ev", "va_release", rng.randrange(1, 6), rng.choice(("port", "port", "noport"))))
         elif r < 0.97:
             sch.append(("ev", "msgs", sub_messages(rng, rng.choice((1, 2, 3, 5)))))
         else:
@@ -626,6 +645,26 @@ def c17_systematic(rng: random.Random, quick: bool) -> list:
         for first_once in (True, False):
             msgs = [{"k": mk, "d": 30 + j} for j in range(3)]
             out.append([("ev", "sub", 1, fam, first_once), ("ev", "sub", 2, fam, not first_once), ("idle",), ("ev", "msgs", msgs), ("idle",), ("ev", "msgs", msgs[:1]), ("idle",)])
+    # voice assistant: overlapping starts whose handlers finish in every order, each with its own result;
+    # with / without an unsubscribe in between
+    import itertools
+
+    for nst in (2, 3):
+        for order in itertools.permutations(range(1, nst + 1)):
+            for results in itertools.product(("port", "noport"), repeat=nst):
+                if nst == 3 and results.count("noport") > 1:
+                    continue
+                for g in ([], [("iter", 1)], [("idle",)]):
+                    for unsub_at in (None, 0, 1):
+                        sch = [("ev", "va_sub", "gated", False), ("idle",)]
+                        for j in range(nst):
+                            sch += [("ev", "msgs", [{"k": "vareq", "f": True, "d": 40 + j}])] + g
+                        for pos, n in enumerate(order):
+                            if unsub_at == pos:
+                                sch += [("ev", "va_unsub")] + g
+                            sch += [("ev", "va_release", n, results[n - 1])] + g
+                        sch += [("idle",), ("ev", "msgs", [{"k": "vareq", "f": True, "d": 50}]), ("idle",), ("ev", "va_release", nst + 1, "port"), ("idle",)]
+                        out.append(sch)
     # voice assistant: handler outcomes x audio x unsubscribe at every point
     for mode in ("port", "noport", "block"):
         for audio in (False, True):
